@@ -29,44 +29,99 @@ theorem join_left (a b : Tag) : TagLe a (a.join b) := by
 theorem join_right (a b : Tag) : TagLe b (a.join b) := by
   cases a <;> cases b <;> simp [Tag.join, TagLe]
 
-theorem tagOf_joinEnv (a b : AEnv) (x : Var) :
-    tagOf (joinEnv a b) x = match a[x]?, b[x]? with
-      | some s, some t => s.join t
-      | _, _ => .shared := by
-  unfold tagOf joinEnv
-  rw [List.getD_eq_getElem?_getD, List.getElem?_zipWith]
-  cases a[x]? <;> cases b[x]? <;> simp
-
-theorem tagOf_eq (a : AEnv) (x : Var) : tagOf a x = (a[x]?).getD .shared := by
-  unfold tagOf; rw [List.getD_eq_getElem?_getD]
-
 theorem joinEnv_left (a b : AEnv) : EnvLe a (joinEnv a b) := by
-  intro x
-  rw [tagOf_joinEnv, tagOf_eq]
-  cases ha : a[x]? <;> cases hb : b[x]? <;> simp [TagLe]
-  exact join_left _ _
+  induction a generalizing b with
+  | leaf => intro x; cases b <;> simp [joinEnv, tagOf, TagLe]
+  | node t l r ihl ihr =>
+    cases b with
+    | leaf => intro x; simp [joinEnv, tagOf, TagLe]
+    | node t' l' r' =>
+      intro x
+      simp only [joinEnv, tagOf]
+      split
+      · exact join_left _ _
+      · split
+        · exact ihl l' _
+        · exact ihr r' _
 
 theorem joinEnv_right (a b : AEnv) : EnvLe b (joinEnv a b) := by
-  intro x
-  rw [tagOf_joinEnv, tagOf_eq]
-  cases ha : a[x]? <;> cases hb : b[x]? <;> simp [TagLe]
-  exact join_right _ _
+  induction a generalizing b with
+  | leaf => intro x; cases b <;> simp [joinEnv, tagOf, TagLe]
+  | node t l r ihl ihr =>
+    cases b with
+    | leaf => intro x; simp [joinEnv, tagOf, TagLe]
+    | node t' l' r' =>
+      intro x
+      simp only [joinEnv, tagOf]
+      split
+      · exact join_right _ _
+      · split
+        · exact ihl l' _
+        · exact ihr r' _
+
+theorem tagOf_setTag_ne (e : AEnv) (x y : Nat) (t : Tag) (hne : y ≠ x) :
+    tagOf (setTag e x t) y = tagOf e y := by
+  induction e generalizing x y with
+  | leaf => rfl
+  | node t₀ l r ihl ihr =>
+    unfold setTag
+    by_cases hx0 : x = 0
+    · simp only [hx0, if_true]
+      have hy0 : y ≠ 0 := by omega
+      simp only [tagOf, hy0, if_false]
+    · simp only [hx0, if_false]
+      by_cases hxo : x % 2 = 1
+      · simp only [hxo, if_true]
+        by_cases hy0 : y = 0
+        · simp only [tagOf, hy0, if_true]
+        · simp only [tagOf, hy0, if_false]
+          by_cases hyo : y % 2 = 1
+          · simp only [hyo, if_true]
+            exact ihl (x / 2) (y / 2) (by omega)
+          · simp only [hyo, if_false]
+      · simp only [hxo, if_false]
+        by_cases hy0 : y = 0
+        · simp only [tagOf, hy0, if_true]
+        · simp only [tagOf, hy0, if_false]
+          by_cases hyo : y % 2 = 1
+          · simp only [hyo, if_true]
+          · simp only [hyo, if_false]
+            exact ihr (x / 2 - 1) (y / 2 - 1) (by omega)
+
+theorem tagOf_setTag_self (e : AEnv) (x : Nat) (t : Tag) :
+    tagOf (setTag e x t) x = t ∨ tagOf (setTag e x t) x = .shared := by
+  induction e generalizing x with
+  | leaf => exact Or.inr rfl
+  | node t₀ l r ihl ihr =>
+    unfold setTag
+    by_cases hx0 : x = 0
+    · simp [hx0, tagOf]
+    · simp only [hx0, if_false]
+      by_cases hxo : x % 2 = 1
+      · simp only [hxo, if_true, tagOf, hx0, if_false]
+        exact ihl (x / 2)
+      · simp only [hxo, if_false, tagOf, hx0]
+        exact ihr (x / 2 - 1)
 
 theorem tagOf_setTag (e : AEnv) (x y : Var) (t τ : Tag) (h : tagOf (setTag e x t) y = τ) (hτ : τ ≠ .shared) :
     (y = x ∧ t = τ) ∨ (y ≠ x ∧ tagOf e y = τ) := by
-  rw [tagOf_eq] at h
-  unfold setTag at h
-  rw [List.getElem?_set] at h
-  by_cases hxy : x = y
+  by_cases hxy : y = x
   · subst hxy
-    left
-    by_cases hl : x < e.length
-    · simp [hl] at h; exact ⟨rfl, h⟩
-    · simp [hl] at h; exact absurd h.symm hτ
-  · right
-    simp [hxy] at h
-    refine ⟨fun h' => hxy h'.symm, ?_⟩
-    rw [tagOf_eq]; exact h
+    rcases tagOf_setTag_self e y t with h' | h'
+    · exact Or.inl ⟨rfl, h'.symm.trans h⟩
+    · rw [h'] at h; exact absurd h.symm hτ
+  · exact Or.inr ⟨hxy, (tagOf_setTag_ne e x y t hxy).symm.trans h⟩
+
+theorem tagOf_full (d : Nat) (x : Var) : tagOf (AEnv.full d) x = .shared := by
+  induction d generalizing x with
+  | zero => rfl
+  | succ d ih =>
+    simp only [AEnv.full, tagOf]
+    split
+    · rfl
+    · split <;> exact ih _
+
+theorem tagOf_init (n : Nat) (x : Var) : tagOf (AEnv.init n) x = .shared := tagOf_full _ x
 
 /-! ### the invariant -/
 
@@ -148,7 +203,7 @@ theorem iter_stable (f : AEnv → Option AEnv) (n : Nat) (E E' : AEnv) (hf : f E
 /-! ### soundness -/
 
 theorem sound (T : List Field) (h0 : Heap) (body : Stmt) (nb : Nat)
-    (hbody : (check T body (List.replicate nb .shared)).isSome = true) :
+    (hbody : (check T body (AEnv.init nb)).isSome = true) :
     ∀ (s : Stmt) (σ σ' : State), Exec body s σ σ' →
     ∀ (e e' : AEnv) (D S : Addr → Prop), check T s e = some e' → Inv T h0 e D S σ →
       ∃ D' S', (∀ a, D a → D' a) ∧ (∀ a, S a → S' a) ∧ Inv T h0 e' D' S' σ' := by
@@ -446,15 +501,14 @@ theorem sound (T : List Field) (h0 : Heap) (body : Stmt) (nb : Nat)
   | call dst σ env' σ₁ v _ ih =>
     intro e e' D S hc hi
     simp only [check, Option.some.injEq] at hc; subst hc
-    cases hb : check T body (List.replicate nb .shared) with
+    cases hb : check T body (AEnv.init nb) with
     | none => simp [hb] at hbody
     | some eb =>
-      have hin : Inv T h0 (List.replicate nb .shared) D S { σ with env := env' } := by
+      have hin : Inv T h0 (AEnv.init nb) D S { σ with env := env' } := by
         refine { hi with fresh := ?_, shallow := ?_, prim := ?_ } <;>
         · intro x a ht
-          exfalso
-          rw [tagOf_eq] at ht
-          by_cases hx : x < nb <;> simp [hx] at ht
+          rw [tagOf_init] at ht
+          cases ht
       obtain ⟨D₁, S₁, hD₁, hS₁, hi₁⟩ := ih _ eb D S hb hin
       have hback : Inv T h0 e D₁ S₁ { env := σ.env, heap := σ₁.heap, log := σ₁.log } := by
         refine { hi₁ with fresh := ?_, shallow := ?_, prim := ?_ }
@@ -517,7 +571,7 @@ theorem sound (T : List Field) (h0 : Heap) (body : Stmt) (nb : Nat)
 
 /-- the invariant also holds at every state passed on the way (in particular where a `raise` ends the call) -/
 theorem reach_sound (T : List Field) (h0 : Heap) (body : Stmt) (nb : Nat)
-    (hbody : (check T body (List.replicate nb .shared)).isSome = true) :
+    (hbody : (check T body (AEnv.init nb)).isSome = true) :
     ∀ (s : Stmt) (σ σ' : State), Reach body s σ σ' →
     ∀ (e e' : AEnv) (D S : Addr → Prop), check T s e = some e' → Inv T h0 e D S σ →
       ∃ e'' D' S', Inv T h0 e'' D' S' σ' := by
@@ -563,20 +617,19 @@ theorem reach_sound (T : List Field) (h0 : Heap) (body : Stmt) (nb : Nat)
     exact ih e' E' D₁ S₁ hf hi₁
   | callIn dst σ env' σ' _ ih =>
     intro e e' D S _ hi
-    cases hb : check T body (List.replicate nb .shared) with
+    cases hb : check T body (AEnv.init nb) with
     | none => simp [hb] at hbody
     | some eb =>
-      have hin : Inv T h0 (List.replicate nb .shared) D S { σ with env := env' } := by
+      have hin : Inv T h0 (AEnv.init nb) D S { σ with env := env' } := by
         refine { hi with fresh := ?_, shallow := ?_, prim := ?_ } <;>
         · intro x a ht
-          exfalso
-          rw [tagOf_eq] at ht
-          by_cases hx : x < nb <;> simp [hx] at ht
+          rw [tagOf_init] at ht
+          cases ht
       exact ih _ eb D S hb hin
 
 /-- the invariant holds initially: nothing has been allocated by the call yet and every variable is `shared` -/
 theorem inv_init (T : List Field) (nvars : Nat) (σ : State) (hlog : σ.log = []) :
-    Inv T σ.heap (List.replicate nvars .shared) (fun _ => False) (fun _ => False) σ := by
+    Inv T σ.heap (AEnv.init nvars) (fun _ => False) (fun _ => False) σ := by
   constructor
   · intro a h; cases h
   · intro a h; cases h
@@ -586,17 +639,14 @@ theorem inv_init (T : List Field) (nvars : Nat) (σ : State) (hlog : σ.log = []
   · intro a ha; rw [hlog] at ha; cases ha
   · intro a o f b h; cases h
   · intro x a ht
-    exfalso
-    rw [tagOf_eq] at ht
-    by_cases hx : x < nvars <;> simp [hx] at ht
+    rw [tagOf_init] at ht
+    cases ht
   · intro x a ht
-    exfalso
-    rw [tagOf_eq] at ht
-    by_cases hx : x < nvars <;> simp [hx] at ht
+    rw [tagOf_init] at ht
+    cases ht
   · intro x a ht
-    exfalso
-    rw [tagOf_eq] at ht
-    by_cases hx : x < nvars <;> simp [hx] at ht
+    rw [tagOf_init] at ht
+    cases ht
 
 /-- **frame theorem with a procedure**: a well-formed program whose `call` statements run a well-formed
     (possibly recursive) procedure leaves every object that existed before exactly as it was, at every state
@@ -608,7 +658,7 @@ theorem wellFormedWith_frame_always (T : List Field) (nvars : Nat) (body p : Stm
     (∀ a o, σ.heap a = some o → σ'.heap a = some o) ∧ (∀ a ∈ σ'.log, σ.heap a = none) := by
   unfold wellFormedWith wellFormed at hwf
   rw [Bool.and_eq_true] at hwf
-  cases hc : check T p (List.replicate nvars .shared) with
+  cases hc : check T p (AEnv.init nvars) with
   | none => simp [hc] at hwf
   | some e' =>
     obtain ⟨e'', D', S', hi⟩ := reach_sound T σ.heap body nvars hwf.2 p σ σ' hr _ e' _ _ hc (inv_init T nvars σ hlog)
@@ -616,7 +666,7 @@ theorem wellFormedWith_frame_always (T : List Field) (nvars : Nat) (body p : Stm
 
 /-- a program without `call` statements: any procedure body will do -/
 theorem wellFormed_isSome_skip (T : List Field) (n : Nat) :
-    (check T .skip (List.replicate n .shared)).isSome = true := rfl
+    (check T .skip (AEnv.init n)).isSome = true := rfl
 
 /-- **frame theorem**: a well-formed program leaves every object that existed before the call exactly as it
     was and every `store` it performs goes to an object allocated during the call -/
@@ -624,7 +674,7 @@ theorem wellFormed_frame (T : List Field) (nvars : Nat) (p : Stmt) (hwf : wellFo
     (σ σ' : State) (hlog : σ.log = []) (hex : Exec .skip p σ σ') :
     (∀ a o, σ.heap a = some o → σ'.heap a = some o) ∧ (∀ a ∈ σ'.log, σ.heap a = none) := by
   unfold wellFormed at hwf
-  cases hc : check T p (List.replicate nvars .shared) with
+  cases hc : check T p (AEnv.init nvars) with
   | none => simp [hc] at hwf
   | some e' =>
     obtain ⟨D', S', _, _, hi⟩ := sound T σ.heap .skip nvars (wellFormed_isSome_skip T nvars) p σ σ' hex _ e' _ _ hc
@@ -638,7 +688,7 @@ theorem wellFormed_frame_always (T : List Field) (nvars : Nat) (p : Stmt) (hwf :
     (σ σ' : State) (hlog : σ.log = []) (hr : Reach .skip p σ σ') :
     (∀ a o, σ.heap a = some o → σ'.heap a = some o) ∧ (∀ a ∈ σ'.log, σ.heap a = none) := by
   unfold wellFormed at hwf
-  cases hc : check T p (List.replicate nvars .shared) with
+  cases hc : check T p (AEnv.init nvars) with
   | none => simp [hc] at hwf
   | some e' =>
     obtain ⟨e'', D', S', hi⟩ := reach_sound T σ.heap .skip nvars (wellFormed_isSome_skip T nvars) p σ σ' hr _ e' _ _ hc
@@ -654,7 +704,7 @@ theorem wellFormed_result_fresh (T : List Field) (nvars : Nat) (p : Stmt) (x : V
     ∃ D : Addr → Prop, (∀ a, D a → σ.heap a = none) ∧ (∀ a, σ'.env x = .ref a → D a) ∧
       (∀ a o f b, D a → σ'.heap a = some o → tainted T f = false → o f = .ref b → D b) := by
   unfold resultTag at ht
-  cases hc : check T p (List.replicate nvars .shared) with
+  cases hc : check T p (AEnv.init nvars) with
   | none => simp [hc] at ht
   | some e' =>
     simp [hc] at ht
